@@ -221,3 +221,18 @@ def dict_keyseq(st: St, cell: DictCell, name="ks"):
 def set_keyseq(st: St, elem_ty, mem, name="ss"):
     cell = DictCell(elem_ty, "bool", mem, None)
     return dict_keyseq(st, cell, name)
+
+
+_card = {}
+
+
+def card(mem):
+    """Cardinality of a finite set given by its membership array: an uninterpreted function with the
+    facts the proofs need (>= 0; 0 iff empty).  Finiteness of Python sets is assumed."""
+    srt = mem.sort()
+    key = str(srt)
+    if key not in _card:
+        _card[key] = z3.Function(f"card<{key}>", srt, z3.IntSort())
+    c = _card[key](mem)
+    x = z3.Const("x!card", srt.domain())
+    return c, [c >= 0, (c == 0) == z3.Not(z3.Exists([x], mem[x]))]
